@@ -82,8 +82,9 @@ def run_property(prop: str, repo_root: str, tier: str, seed: int, *, write=True,
     if error is None and tier == "thorough":
         try:
             from selftest.battery import run_battery
-            res = run_battery(prop, repo_root, seed=seed)
-            extra["selftest"] = res["summary"]
+            res = run_battery(prop, repo_root, seed=seed, cross_twins=True)
+            extra["selftest"] = {k: v for k, v in res["summary"].items() if k != "details"}
+            extra["selftest"]["failed_details"] = [r for r in res["summary"]["details"] if r["outcome"] in ("missed", "false-alarm")]
             if res["missed"] or res["false_alarms"]:
                 error = (f"self-test: rule(s) blind or noisy on scratch variants: missed={res['missed']} "
                          f"false_alarms={res['false_alarms']}")
